@@ -60,7 +60,6 @@ func NewTimer(ioc *IO) (*Timer, error) {
 // If the delay is negative or 0, the callback is executed as soon as possible.
 func (t *Timer) ScheduleOnce(delay time.Duration, cb func()) (err error) {
 	if t.state == stateReady {
-		t.cancelled = false
 		if delay <= 0 {
 			cb()
 		} else {
@@ -103,6 +102,12 @@ func (t *Timer) ScheduleRepeating(repeat time.Duration, cb func()) error {
 			}
 		}
 
+		// A cancellation made before this repetition starts is not meant for it. One
+		// made by cb must survive whatever else cb schedules on the timer, so the
+		// flag is cleared here and not in ScheduleOnce.
+		if t.state == stateReady {
+			t.cancelled = false
+		}
 		return t.ScheduleOnce(repeat, ccb)
 	}
 }
